@@ -34,13 +34,14 @@ func (t *trackConn) Close() error {
 func (t *trackConn) Closes() int { t.mu.Lock(); defer t.mu.Unlock(); return t.closes }
 
 type muxEvent struct {
-	Kind  string // route accept conn closelis cancel basefail
+	Kind  string // route accept conn closelis cancel basefail releasemon
 	Which int    // route index (-1 = default) or connection index
 }
 
 type connSpec struct {
 	Prefix int   // index of the route prefix to use, or -1 for a prefix no route has
 	Short  int   // if > 0 the client sends only this many bytes (< prefix length) and closes
+	Hangup bool  // the client connects and goes away without sending a single byte (health check, port scan)
 	Body   int   // payload length after the prefix
 	Splits []int // write sizes (cycled)
 }
@@ -50,6 +51,9 @@ type c16Case struct {
 	NRoutes   int
 	Conns     []connSpec
 	Events    []muxEvent
+	// HoldMonitor: the goroutine that unregisters a closed route is late: it stays parked in front of the
+	// unregistration until a "releasemon" event (or the wind-down) lets it go
+	HoldMonitor bool
 }
 
 func prefixOf(i, n int) string {
@@ -77,6 +81,31 @@ func runC16(c c16Case) (r pbt.Result) {
 	runDone := make(chan error, 1)
 	go func() { runDone <- mux.Run(ctx) }()
 
+	var pts *sim.Points
+	if c.HoldMonitor {
+		pts = sim.NewPoints([]string{"mux.monitorListener.beforeUnregister"})
+		pts.Limit = 64
+		pts.Install()
+		defer pts.Uninstall()
+	}
+	releaseMonitors := func() {
+		if pts == nil {
+			return
+		}
+		for i := 0; i < 100; i++ {
+			sim.WaitQuiescent()
+			parked := pts.Parked()
+			if len(parked) == 0 {
+				return
+			}
+			for _, a := range parked {
+				pts.Release(a)
+			}
+		}
+	}
+	// unregPending: the route was closed and the goroutine that unregisters it has not run yet
+	unregPending := map[string]bool{}
+	reRouted := 0
 	var mu sync.Mutex
 	listeners := map[string]net.Listener{"default": mux.Default()}
 	lisClosed := map[string]bool{}
@@ -132,9 +161,11 @@ func runC16(c c16Case) (r pbt.Result) {
 		expect      string // listener name, or "closed"
 		stopped     bool
 		hadAcceptor bool // an Accept was pending on the expected listener when the connection arrived
+		eitherWay   bool // closing it and handing it to the default listener are both in order
 	}
 	var sent []*sentConn
 	stopped := false
+	hangups := 0
 	splitInsidePrefix := false
 	offer := func(i int) {
 		spec := c.Conns[i%len(c.Conns)]
@@ -151,6 +182,10 @@ func runC16(c c16Case) (r pbt.Result) {
 		if short {
 			data = data[:spec.Short]
 		}
+		if spec.Hangup && c.PrefixLen > 0 {
+			short, data = true, nil
+			hangups++
+		}
 		cl, sv := net.Pipe()
 		sc := &sentConn{spec: spec, data: data, tc: &trackConn{Conn: sv}}
 		// where must it go, given the routes that are live right now?
@@ -162,6 +197,9 @@ func runC16(c c16Case) (r pbt.Result) {
 			sc.expect = "closed"
 		case listeners[name] != nil && !lisClosed[name]:
 			sc.expect = name
+		case listeners[name] != nil && lisClosed[name] && unregPending[name]:
+			// closed but still registered: the connection may be closed or fall through to the default
+			sc.expect, sc.eitherWay = "default", true
 		case listeners[name] != nil && lisClosed[name]:
 			// the route was closed: its prefix is unregistered once the monitor ran -> default
 			sc.expect = "default"
@@ -171,7 +209,7 @@ func runC16(c c16Case) (r pbt.Result) {
 		if sc.expect == "default" && lisClosed["default"] {
 			sc.expect = "closed"
 		}
-		sc.hadAcceptor = accepting[sc.expect]
+		sc.hadAcceptor = accepting[sc.expect] && !sc.eitherWay
 		sent = append(sent, sc)
 		offered := make(chan bool, 1)
 		go func() { offered <- base.Offer(sc.tc) }()
@@ -220,6 +258,18 @@ func runC16(c c16Case) (r pbt.Result) {
 			name := routeName(i)
 			if listeners[name] == nil && !stopped {
 				listeners[name] = mux.Route(prefixOf(i, c.PrefixLen))
+			} else if lisClosed[name] && !stopped {
+				// the application registers the route again after having closed its listener
+				l := mux.Route(prefixOf(i, c.PrefixLen))
+				if l != listeners[name] {
+					// a fresh listener: the route is live again
+					listeners[name], lisClosed[name], accepting[name] = l, false, false
+					mu.Lock()
+					acceptEnded[name] = false
+					mu.Unlock()
+					unregPending[name] = false
+					reRouted++
+				}
 			}
 		case "accept":
 			i := -1
@@ -238,7 +288,15 @@ func runC16(c c16Case) (r pbt.Result) {
 			name := routeName(i)
 			if l := listeners[name]; l != nil {
 				_ = l.Close()
+				if !lisClosed[name] && name != "default" && c.HoldMonitor {
+					unregPending[name] = true
+				}
 				lisClosed[name] = true
+			}
+		case "releasemon":
+			releaseMonitors()
+			for name := range unregPending {
+				unregPending[name] = false
 			}
 		case "cancel":
 			cancel()
@@ -250,7 +308,9 @@ func runC16(c c16Case) (r pbt.Result) {
 		sim.WaitQuiescent()
 	}
 	// wind down: stop the mux, start accept loops everywhere so that nothing is left for lack of an acceptor
+	releaseMonitors()
 	cancel()
+	releaseMonitors()
 	sim.WaitQuiescent()
 	select {
 	case <-runDone:
@@ -278,7 +338,7 @@ func runC16(c c16Case) (r pbt.Result) {
 			continue
 		}
 		ds := deliveries[i]
-		if len(sc.data) == 0 || (sc.spec.Short > 0 && sc.spec.Short < c.PrefixLen) {
+		if len(sc.data) == 0 || (sc.spec.Short > 0 && sc.spec.Short < c.PrefixLen) || (sc.spec.Hangup && c.PrefixLen > 0) {
 			ds = nil // a too-short stream carries no marker; it must simply have been closed
 			for _, d := range deliveries[-1] {
 				_ = d
@@ -329,6 +389,15 @@ func runC16(c c16Case) (r pbt.Result) {
 	if splitInsidePrefix {
 		r.Label("prefix_split_across_writes")
 	}
+	if hangups > 0 {
+		r.Label("client_went_away_before_first_byte")
+	}
+	if reRouted > 0 {
+		r.Label("route_registered_again_after_close")
+	}
+	if c.HoldMonitor {
+		r.Label("late_unregistration")
+	}
 	if len(listeners) > 1 {
 		r.Label("routes_registered")
 	}
@@ -355,12 +424,14 @@ func genC16(t *rapid.T) c16Case {
 			s.Short = rapid.IntRange(1, 7).Draw(t, "shortlen")
 		}
 		s.Splits = rapid.SliceOfN(rapid.IntRange(1, 9), 0, 4).Draw(t, "splits")
+		s.Hangup = rapid.IntRange(0, 7).Draw(t, "hangup") == 0
 		return s
 	}), 1, 4).Draw(t, "conns")
-	kinds := []string{"route", "route", "route", "accept", "accept", "accept", "accept", "accept", "accept", "conn", "conn", "conn", "conn", "conn", "conn", "closelis", "cancel", "basefail"}
+	kinds := []string{"route", "route", "route", "accept", "accept", "accept", "accept", "accept", "accept", "conn", "conn", "conn", "conn", "conn", "conn", "closelis", "closelis", "cancel", "basefail", "releasemon"}
 	c.Events = rapid.SliceOfN(rapid.Custom(func(t *rapid.T) muxEvent {
 		return muxEvent{Kind: rapid.SampledFrom(kinds).Draw(t, "ev"), Which: rapid.IntRange(0, 3).Draw(t, "which")}
 	}), 3, 14).Draw(t, "events")
+	c.HoldMonitor = rapid.IntRange(0, 2).Draw(t, "holdmonitor") == 0
 	return c
 }
 
